@@ -5,7 +5,7 @@
    the pawn / king / castling blocks, is_capture = the rules' capture relation and the attack queries = the rules'
    attack relation are decided by the correspondence run against spec/Rules.v. *)
 From Coq Require Import NArith ZArith List Bool.
-From Rawr Require Import Consts Bits Magic Position MoveGen MakeMove MakeStages Rules Abs NotationFacts KeyAbs AttackFacts AttackAbs CountFacts AttackSets CaptureFacts RaySym.
+From Rawr Require Import Consts Bits Magic Position MoveGen MakeMove MakeStages Rules Abs NotationFacts KeyAbs AttackFacts AttackAbs CountFacts AttackSets CaptureFacts RaySym Closure EpRetro PerftRules.
 Import ListNotations.
 Local Open Scope N_scope.
 
@@ -66,6 +66,17 @@ Theorem C08_slider_attacks_symmetric : forall a b occ, a < 64 -> b < 64 ->
   /\ (N.testbit (ratt a occ) b = true -> N.testbit (ratt b occ) a = true).
 Proof. intros a b occ Ha Hb. split; [exact (batt_sym a b occ Ha Hb)|exact (ratt_sym a b occ Ha Hb)]. Qed.
 
+(* ---- against the rules' own tree: on every position satisfying the invariant and the en-passant consistency, perft to any
+   depth (bulk counter at depth 1 included) is the number of leaves of the legal move tree of the RULES (spec/Rules.v), and
+   count_moves is the number of legal moves of the rules -- by C01's equivalence, the refinement C02 and the closure of the
+   invariant, with the rules listing no move twice (PerftRules.v) *)
+Theorem C08_perft_is_the_rules_leaf_count : forall d p, Inv0 p -> ep_ok_b p = true ->
+  Z.of_N (perft d p) = leaves d (abs_state p).
+Proof. exact perft_is_rules_leaves. Qed.
+Theorem C08_count_moves_is_the_rules_count : forall p, Inv0 p -> ep_ok_b p = true ->
+  count_moves p = N.of_nat (length (legal (abs_state p))).
+Proof. exact count_moves_is_rules_count. Qed.
+
 Example C08_attack_example : attack_pre_b startpos = true /\ attack_pre_b (makenull startpos) = true.
 Proof. split; vm_compute; reflexivity. Qed.
 
@@ -83,3 +94,5 @@ Print Assumptions C08_attacked_subset_is_the_rules.
 Print Assumptions C08_in_check_is_the_rules.
 Print Assumptions C08_captures_are_the_capturing_moves.
 Print Assumptions C08_slider_attacks_symmetric.
+Print Assumptions C08_perft_is_the_rules_leaf_count.
+Print Assumptions C08_count_moves_is_the_rules_count.
